@@ -1,10 +1,10 @@
 INIT Init
 NEXT Next
 CONSTANTS
-  MaxCalls = 2
+  MaxCalls = 3
   BaseCalls <- MC_BaseCalls
-  En <- MC_En
-  ScalarLits <- MC_ScalarLits
+  En <- MC_EnMax
+  ScalarLits <- MC_ScalarLits3
   ArrayLits <- MC_ArrayLits
   Slices <- MC_Slices
   Indices <- MC_Indices
@@ -16,7 +16,8 @@ CONSTANTS
   Want <- MC_Want
   FinalEn <- MC_FinalEn
   Stages <- MC_Stages
-  PRPredict <- MC_NoPR
+  PRPredict <- ProblemPred
+  Code <- MC_Code
 INVARIANT DenClosed
-
+INVARIANT C05_LPDenotes
 CHECK_DEADLOCK FALSE
